@@ -28,7 +28,9 @@ type goroutine struct {
 	// rendezvous slots
 	recvVal value
 	recvOK  bool
+	recvMsg int
 	wake    bool
+	wakeBy  int // index of the signal/broadcast event that woke a cond waiter
 }
 
 // control panics unwind a host goroutine without running target defers.
@@ -63,6 +65,7 @@ func (i *interpreter) spawn(fr *frame, pos token.Pos, fn value, args []value) *g
 		i.inconclusive(fmt.Sprintf("goroutine budget exceeded: %v", h))
 	}
 	i.gs = append(i.gs, g)
+	i.traceSync(fr, evGo, nil, 0, g.id)
 	i.wg.Add(1)
 	go func() {
 		defer i.wg.Done()
@@ -70,6 +73,8 @@ func (i *interpreter) spawn(fr *frame, pos token.Pos, fn value, args []value) *g
 			return
 		}
 		g.started = true
+		root := &frame{i: i, g: g, fn: rootFn(fn)}
+		i.traceSync(root, evStart, nil, 0, 0)
 		defer func() {
 			r := recover()
 			g.done = true
@@ -86,7 +91,8 @@ func (i *interpreter) spawn(fr *frame, pos token.Pos, fn value, args []value) *g
 			}
 			i.yielded <- struct{}{}
 		}()
-		call(i, &frame{i: i, g: g, fn: rootFn(fn)}, pos, fn, args)
+		call(i, root, pos, fn, args)
+		i.traceSync(root, evExit, nil, 0, 0)
 	}()
 	return g
 }
@@ -201,6 +207,7 @@ func (i *interpreter) schedLoop() {
 type sendWaiter struct {
 	g    *goroutine
 	v    value
+	msg  int
 	done bool
 }
 
@@ -210,6 +217,8 @@ type recvWaiter struct {
 
 type channel struct {
 	buf    []value
+	ids    []int // message numbers of buf
+	nsend  int   // next message number
 	cap    int
 	closed bool
 	sendq  []*sendWaiter
@@ -242,38 +251,50 @@ func (c *channel) canSend() bool {
 
 // doRecv performs a receive that is known not to block.
 func (c *channel) doRecv() (value, bool) {
+	v, ok, _ := c.doRecvMsg()
+	return v, ok
+}
+
+func (c *channel) doRecvMsg() (value, bool, int) {
 	if len(c.buf) > 0 {
 		v := c.buf[0]
+		id := c.ids[0]
 		c.buf = c.buf[1:]
+		c.ids = c.ids[1:]
 		if len(c.sendq) > 0 {
 			s := c.sendq[0]
 			c.sendq = c.sendq[1:]
 			c.buf = append(c.buf, s.v)
+			c.ids = append(c.ids, s.msg)
 			s.done = true
 		}
-		return v, true
+		return v, true, id
 	}
 	if len(c.sendq) > 0 {
 		s := c.sendq[0]
 		c.sendq = c.sendq[1:]
 		s.done = true
-		return s.v, true
+		return s.v, true, s.msg
 	}
-	return nil, false // closed
+	return nil, false, -1 // closed
 }
 
 // doSend performs a send that is known not to block.
-func (c *channel) doSend(v value) {
+func (c *channel) doSend(v value) int {
 	if c.closed {
 		panic(targetPanic{iface{t: types.Typ[types.String], v: "send on closed channel"}})
 	}
+	id := c.nsend
+	c.nsend++
 	if len(c.recvq) > 0 {
 		r := c.recvq[0]
 		c.recvq = c.recvq[1:]
-		r.g.recvVal, r.g.recvOK, r.g.wake = v, true, true
-		return
+		r.g.recvVal, r.g.recvOK, r.g.wake, r.g.recvMsg = v, true, true, id
+		return id
 	}
 	c.buf = append(c.buf, v)
+	c.ids = append(c.ids, id)
+	return id
 }
 
 func (i *interpreter) chanSend(fr *frame, c *channel, v value) {
@@ -283,15 +304,18 @@ func (i *interpreter) chanSend(fr *frame, c *channel, v value) {
 		i.park(g, "send on nil channel", func() bool { return false })
 	}
 	if c.canSend() {
-		c.doSend(v)
+		id := c.doSend(v)
+		i.traceSync(fr, evSend, c, id, 0)
 		return
 	}
-	w := &sendWaiter{g: g, v: v}
+	w := &sendWaiter{g: g, v: v, msg: c.nsend}
+	c.nsend++
 	c.sendq = append(c.sendq, w)
 	i.park(g, "chan send", func() bool { return w.done || c.closed })
 	if !w.done {
 		panic(targetPanic{iface{t: types.Typ[types.String], v: "send on closed channel"}})
 	}
+	i.traceSync(fr, evSend, c, w.msg, 0)
 }
 
 func (i *interpreter) chanRecv(fr *frame, c *channel) (value, bool) {
@@ -301,7 +325,13 @@ func (i *interpreter) chanRecv(fr *frame, c *channel) (value, bool) {
 		i.park(g, "receive from nil channel", func() bool { return false })
 	}
 	if c.canRecv() {
-		return c.doRecv()
+		v, ok, id := c.doRecvMsg()
+		if ok {
+			i.traceSync(fr, evRecv, c, id, 0)
+		} else {
+			i.traceSync(fr, evRecvZero, c, 0, 0)
+		}
+		return v, ok
 	}
 	w := &recvWaiter{g: g}
 	g.wake = false
@@ -309,8 +339,10 @@ func (i *interpreter) chanRecv(fr *frame, c *channel) (value, bool) {
 	i.park(g, "chan receive", func() bool { return g.wake || c.closed })
 	if g.wake {
 		g.wake = false
+		i.traceSync(fr, evRecv, c, g.recvMsg, 0)
 		return g.recvVal, g.recvOK
 	}
+	i.traceSync(fr, evRecvZero, c, 0, 0)
 	// closed while waiting: remove ourselves
 	for n, r := range c.recvq {
 		if r == w {
@@ -330,6 +362,7 @@ func (i *interpreter) chanClose(fr *frame, c *channel) {
 		panic(targetPanic{iface{t: types.Typ[types.String], v: "close of closed channel"}})
 	}
 	c.closed = true
+	i.traceSync(fr, evClose, c, 0, 0)
 }
 
 // doSelect implements ssa.Select. With several ready cases the choice is
@@ -384,9 +417,16 @@ func (i *interpreter) doSelect(fr *frame, instr *ssa.Select) value {
 	if chosen >= 0 {
 		sc := cases[chosen]
 		if sc.send {
-			sc.c.doSend(sc.v)
+			id := sc.c.doSend(sc.v)
+			i.traceSync(fr, evSend, sc.c, id, 0)
 		} else {
-			recvV, recvOK = sc.c.doRecv()
+			var id int
+			recvV, recvOK, id = sc.c.doRecvMsg()
+			if recvOK {
+				i.traceSync(fr, evRecv, sc.c, id, 0)
+			} else {
+				i.traceSync(fr, evRecvZero, sc.c, 0, 0)
+			}
 		}
 	}
 	r := tuple{chosen, recvOK}
@@ -438,6 +478,7 @@ func (i *interpreter) mutexLock(fr *frame, p *value) {
 	}
 	s.locked = true
 	s.owner = fr.g
+	i.traceSync(fr, evAcq, p, 0, 0)
 }
 
 func (i *interpreter) mutexUnlock(fr *frame, p *value) {
@@ -448,6 +489,7 @@ func (i *interpreter) mutexUnlock(fr *frame, p *value) {
 	if !s.locked {
 		panic(targetPanic{iface{t: types.Typ[types.String], v: "sync: unlock of unlocked mutex"}})
 	}
+	i.traceSync(fr, evRel, p, 0, 0)
 	s.locked = false
 	s.owner = nil
 	i.syncPoint(fr, "unlock")
@@ -460,6 +502,7 @@ func (i *interpreter) rLock(fr *frame, p *value) {
 		i.park(fr.g, "rwmutex rlock", func() bool { return !s.locked })
 	}
 	s.readers++
+	i.traceSync(fr, evRAcq, p, 0, 0)
 }
 
 func (i *interpreter) rUnlock(fr *frame, p *value) {
@@ -467,6 +510,7 @@ func (i *interpreter) rUnlock(fr *frame, p *value) {
 	if s.readers <= 0 {
 		panic(targetPanic{iface{t: types.Typ[types.String], v: "sync: RUnlock of unlocked RWMutex"}})
 	}
+	i.traceSync(fr, evRRel, p, 0, 0)
 	s.readers--
 	i.syncPoint(fr, "runlock")
 }
